@@ -23,15 +23,27 @@ var linKeys = [][2]string{{"a", "x"}, {"a", "y"}, {"b", "x"}, {"b", "y"}, {"c", 
 
 // linState(j): odd j = 2v-1 is the full state of version v (v%3+2 objects, all at version v); even j = 2v is
 // the same state shrunk to its first half — a relist that only deletes (no new version anywhere).
-func linState(j int) []kv.Obj {
+//
+// In a "big" round a state has 260+ objects (a cache large enough for any size-dependent path), named n/0 … n/399.
+// Every list also carries, in its middle, one object whose resource version does not parse: the cache skips it.
+func linState(j int, big bool) []kv.Obj {
 	v := (j + 1) / 2
 	n := v%3 + 2
+	if big {
+		n = 260 + v%3
+	}
 	if j%2 == 0 {
 		n = (n + 1) / 2
 	}
 	var l []kv.Obj
 	for i := 0; i < n; i++ {
 		key := linKeys[(v+i)%len(linKeys)]
+		if big {
+			key = [2]string{"n", strconv.Itoa((v + i) % 400)}
+		}
+		if i == n/2 {
+			l = append(l, kv.Obj{Kind: "pod", NS: "bad", Name: "version", RV: "zz"})
+		}
 		l = append(l, kv.Obj{Kind: "pod", NS: key[0], Name: key[1], RV: strconv.Itoa(v), Labels: map[string]string{"v": strconv.Itoa(v)}})
 	}
 	return l
@@ -52,6 +64,11 @@ func lindiff(w *bufio.Writer, seed uint64, tier string, stats map[string]int) {
 		if round >= rounds {
 			writes, readers = 24, 5
 		}
+		// the last long round is a big one (fewer writes: its lists are long)
+		big := round == rounds-1
+		if big {
+			writes, readers = 60, 4
+		}
 		ctx, cancel := context.WithCancel(context.Background())
 		c := kcache.VerifNewCache(ctx, &kv.Log{}, nil, kv.Term{Op: "null"}.Build())
 		var clock atomic.Int64
@@ -61,7 +78,7 @@ func lindiff(w *bufio.Writer, seed uint64, tier string, stats map[string]int) {
 		var wg sync.WaitGroup
 		stop := make(chan struct{})
 		nr := 1 + r.Intn(readers)
-		fmt.Fprintln(w, kv.L("scenario", fmt.Sprint(round), "lin"))
+		fmt.Fprintln(w, kv.L("scenario", fmt.Sprint(round), map[bool]string{false: "lin", true: "lin-big"}[big]))
 		for id := 0; id < nr; id++ {
 			wg.Add(1)
 			useGet := id%2 == 1
@@ -119,7 +136,7 @@ func lindiff(w *bufio.Writer, seed uint64, tier string, stats map[string]int) {
 		}
 		done := writes
 		for k := 1; k <= writes; k++ {
-			st := linState(k)
+			st := linState(k, big)
 			if k == cancelAt {
 				go cancel()
 			}
